@@ -9,6 +9,9 @@ harness, repo, out = sys.argv[1], sys.argv[2], sys.argv[3]
 rep = {}
 # accessor files go into existing packages
 rep[os.path.join(repo, "zz_verif_access.go")] = os.path.join(harness, "access", "root.go")
+for f in sorted(os.listdir(os.path.join(harness, "access"))):
+    if f.endswith(".go") and f != "root.go":
+        rep[os.path.join(repo, "zz_verif_access_" + f)] = os.path.join(harness, "access", f)
 # every other harness directory becomes a virtual package under <repo>/zz_verif/
 for d, _, files in os.walk(harness):
     rel = os.path.relpath(d, harness)
